@@ -20,7 +20,7 @@ unicode / spaces / leading '-', absolute or relative, trailing separators, absol
 and '..' chains reaching its canary directory, names going through a symlink that already exists in the output directory, up to two siblings of existing members (same containing directory); in a third of the cases a longer stale file \
 already sits where a benign member goes) x \
 extraction form {whole archive (linear), one listed name, glob '*', glob prefix} x output argument {relative, './rel', \
-absolute, nested not-yet-existing, through a '..' component, through a symbolic link to the output directory} x layers; archives are written with the library API (arbitrary names). Oracle: a recursive \
+absolute, nested not-yet-existing, through a '..' component, through a symbolic link to the output directory, both also as absolute paths} x layers; archives are written with the library API (arbitrary names). Oracle: a recursive \
 snapshot (path, type, size, SHA-256, link target) of the sandbox root EXCLUDING the output directory, plus the listing of the \
 sandbox's parent, is identical before and after `mlar extract`; when every member of the set is benign and representable (no \
 '..', components of 1..255 bytes, no NUL, no two members equal or prefix-related after normalisation) each member exists \
@@ -196,7 +196,7 @@ fn oracle(c: &Case, st: &mut Stats) -> Result<(), String> {
         std::fs::write(&key_path, der).map_err(|e| format!("HARNESS: {e}"))?;
     }
     // output directory argument
-    let (outarg, outdir): (String, PathBuf) = match c.outarg % 6 {
+    let (outarg, outdir): (String, PathBuf) = match c.outarg % 8 {
         0 => ("out".into(), work.join("out")),
         1 => ("./out".into(), work.join("out")),
         2 => (work.join("out").display().to_string(), work.join("out")),
@@ -206,14 +206,25 @@ fn oracle(c: &Case, st: &mut Stats) -> Result<(), String> {
             std::fs::create_dir_all(work.join("via")).map_err(|e| format!("HARNESS: {e}"))?;
             ("via/../out".into(), work.join("out"))
         }
-        _ => {
+        5 => {
             // through a symbolic link to the (existing) output directory
             std::fs::create_dir_all(work.join("out")).map_err(|e| format!("HARNESS: {e}"))?;
             let _ = std::os::unix::fs::symlink(work.join("out"), work.join("lnout"));
             ("lnout".into(), work.join("out"))
         }
+        6 => {
+            // absolute, through a '..' component
+            std::fs::create_dir_all(work.join("via")).map_err(|e| format!("HARNESS: {e}"))?;
+            (work.join("via/../out").display().to_string(), work.join("out"))
+        }
+        _ => {
+            // absolute, through a symbolic link in the middle of the path
+            std::fs::create_dir_all(work.join("real")).map_err(|e| format!("HARNESS: {e}"))?;
+            let _ = std::os::unix::fs::symlink(work.join("real"), work.join("lnmid"));
+            (work.join("lnmid/out").display().to_string(), work.join("real/out"))
+        }
     };
-    if c.plant_symlink && c.outarg % 6 != 3 {
+    if c.plant_symlink && c.outarg % 8 != 3 {
         std::fs::create_dir_all(&outdir).ok();
         // a link that already exists in the output directory and leads outside of it: to the canary directory, or
         // (every other case) to a sibling whose name merely starts like the output directory's name
@@ -229,7 +240,7 @@ fn oracle(c: &Case, st: &mut Stats) -> Result<(), String> {
         }
     }
     // one case in three: the output directory already holds a longer, stale file where a benign member goes
-    if c.seed % 3 == 0 && c.outarg % 6 != 3 {
+    if c.seed % 3 == 0 && c.outarg % 8 != 3 {
         if let Some(n) = names.iter().find(|n| normalise(n).map_or(false, |v| !v.is_empty() && v.iter().all(|c| !c.is_empty() && c.len() <= 255 && !c.contains('\0')) && v[0] != "lnk")) {
             let p = outdir.join(normalise(n).unwrap().join("/"));
             if let Some(parent) = p.parent() {
@@ -290,7 +301,7 @@ fn oracle(c: &Case, st: &mut Stats) -> Result<(), String> {
             }
         }
         // the nested output form may create the parents of the output directory: those are on the way to it
-        let allowed = |d: &String| c.outarg % 6 == 3 && (d.ends_with("/n1") || d.ends_with("/n1/n2")) && d.starts_with("created");
+        let allowed = |d: &String| c.outarg % 8 == 3 && (d.ends_with("/n1") || d.ends_with("/n1/n2")) && d.starts_with("created");
         diff.retain(|d| !allowed(d));
         // Through a symlink that ALREADY exists in the output directory, mlar creates the missing parent
         // directories before it checks the canonical location and skips the member. The property speaks of
@@ -325,13 +336,13 @@ fn oracle(c: &Case, st: &mut Stats) -> Result<(), String> {
     let has_hostile = c.names.iter().any(|n| n.root % 3 != 0 || n.comps.iter().any(|x| matches!(x, Comp::Parent | Comp::Link)));
     let has_benign = norm.iter().any(|n| n.as_ref().map_or(false, representable));
     st.label(format!("form={}", c.form % 4));
-    st.label(format!("outarg={}", c.outarg % 6));
+    st.label(format!("outarg={}", c.outarg % 8));
     st.label(format!("all_benign={all_benign}"));
     st.label(format!("exit={:?}", o.status.code()));
     if has_hostile && has_benign {
         st.nontrivial(util::hash64(format!("{c:?}").as_bytes()));
     }
-    if all_benign && c.outarg % 6 != 3 {
+    if all_benign && c.outarg % 8 != 3 {
         if !o.status.success() {
             return Err(format!("mlar extract failed on benign member names: {} [{}]", cli::describe(&o), describe()));
         }
@@ -400,7 +411,7 @@ fn case() -> impl Strategy<Value = Case> {
         prop_oneof![3 => prop::collection::vec(name(), 1..6), 2 => prop::collection::vec(benign_name(), 1..5)],
         0u8..4,
         any::<u16>(),
-        0u8..6,
+        0u8..8,
         prop_oneof![3 => Just(0u8), 1 => Just(3u8), 1 => Just(2u8)],
         prop::bool::weighted(0.35),
         any::<u16>(),
